@@ -19,11 +19,49 @@ import ast_  # noqa: E402
 import report  # noqa: E402
 
 
+def persistent_state_rule(ctx, pid):
+    """Rule <pid>-RS, applied to every property: in the files the property is anchored in, no function
+    keeps input-derived data in a static / thread_local local across calls (allow-list in sa/path.py)."""
+    import path
+    rid = '%s-RS' % pid
+    ctx.rule(rid, 'no state derived from one call\'s arguments survives into the next: a static / thread_local function-local in the anchored files is const, reset before use, or on the frozen allow-list (random_data pool and descriptor, get_values_multi empty vector)', 1)
+    try:
+        props = [json.loads(l) for l in open(os.path.join(ast_.VERIF, 'properties.jsonl')) if l.strip()]
+        files = next((p_.get('anchors', {}).get('files', []) for p_ in props if p_.get('id') == pid), [])
+    except Exception:
+        files = []
+    files = {os.path.basename(f_) for f_ in files}
+    files |= {f_.replace('.hh', '-inl.hh') for f_ in files if f_.endswith('.hh')}
+    n_fn, found = 0, 0
+    seen = set()
+    for uname in sorted(ctx.units):
+        try:
+            u = ast_.repo_unit(uname) if not uname.startswith('c') or not uname[1:3].isdigit() else ast_.witness_unit(uname)
+        except Exception:
+            continue
+        for f in u.functions:
+            fl = os.path.basename(f.get('_file') or '')
+            if ast_.body_of(f) is None or (files and fl not in files) or not (f.get('_file') or '').startswith(ast_.REPO):
+                continue
+            key = (fl, f.get('_line'), f.get('name'))
+            if key in seen:
+                continue
+            seen.add(key)
+            n_fn += 1
+            for pv, w in path.input_dependent_persistent_writes(f):
+                found += 1
+                ctx.bad(rid, '%s|%s' % (f.get('name'), pv.get('name')), pv, '`%s` in %s has %s storage and is filled from the call\'s arguments (`%s`) without being reset first: what one call (also a failing one, or one on another object / alphabet / thread of control) leaves there is used by the next' % (
+                    pv.get('name'), f.get('name'), 'thread-local' if pv.get('tls') else 'static', ast_.src_text(w, 60)))
+    if not found:
+        ctx.ok(rid, 'anchored-files', ','.join(sorted(files)) or pid, '%d function(s) in %s: no input-dependent persistent local' % (n_fn, sorted(files)), nontrivial=False)
+
+
 def run_property(pid, tier):
     ctx = report.Ctx(pid, tier)
     try:
         mod = importlib.import_module('props.' + pid.lower())
         mod.run(ctx)
+        persistent_state_rule(ctx, pid)
         if tier == 'thorough' and not os.environ.get('VERIF_EVDIR'):
             import calibrate
             cal = calibrate.calibrate(pid, ast_.REPO)
